@@ -209,7 +209,7 @@ def replay_family(rep, path, run):
     return rc
 
 
-RULE = ("27 element types (basics incl. +0/-0 floats, bool and complex128, named basics incl. a named bool, []byte / named []byte / []string / [2]int elements with nil, empty and different-length inner slices whose lexicographic order differs from the derived length-first order, comparable struct, pointers to structs incl. recursive and "
+RULE = ("39 element types (unsigned 64-bit kinds incl. named and as map keys with values at and above 1<<63; basics incl. +0/-0 floats, bool and complex128, named basics incl. a named bool, []byte / named []byte / []string / [2]int elements with nil, empty and different-length inner slices whose lexicographic order differs from the derived length-first order, comparable struct, pointers to structs incl. recursive and "
         "imported, slices, struct with pointers, named floats inside non-comparable elements; more on thorough) and 9 key types (incl. float32 / float64 / named float / complex128 keyed maps with one and two NaN keys among ordinary keys, zeros and infinities: keys ops only) x a boundary-biased list pool per type "
         "(nil, empty, singleton, duplicates fresh and aliased, both orders of pairs, all 6 orders of triples, Equal-but-not-identical "
         "variants, for slice-typed elements prefix views of ONE backing array with different lengths mixed with independent copies and nil, whole pool / reversed / sorted / reverse-sorted, nil elements, seeded random lists up to length 7 (12 thorough)); "
